@@ -11,9 +11,9 @@ TITLE = "An invalid expression makes one node optional and never aborts validati
 ENGINE = "e1-bounded-enumeration"
 
 INVALID = ["Muss [1] O [501]", "X [501] X [901]", "Muss ([1] U [2]) O [501]", "Muss [2] O [501] Kann [3]", "Soll [3] Kann [2] X [502]",
-           "Muss [2] Kann"]  # the last one is VALID: a control
+           "Muss ([501] U [502]) O [2]", "Kann [501][902] X [1]"]
 BASE_LABELS = ["Muss [1]", "Kann [1]", "Muss [2]"]
-BOUNDS = {"quick": {"nodes": 4, "cers": 2, "invalid": 5}, "thorough": {"nodes": 5, "cers": 3, "invalid": 5}}
+BOUNDS = {"quick": {"nodes": 4, "cers": 2, "invalid": 7}, "thorough": {"nodes": 5, "cers": 3, "invalid": 7}}
 
 
 def describe(tier):
@@ -21,7 +21,7 @@ def describe(tier):
     return {
         "rule": f"every AHB tree shape with <= {b['nodes']} nodes (value pools with 2-3 entries count their entries as fault sites) x EVERY "
                 f"non-empty subset of fault sites (groups, segments, free-text elements, value-pool entries) carrying one of the first "
-                f"{b['invalid']} invalid expressions {INVALID[:5]} (single- and multi-part, invalid part first or last) x base labellings "
+                f"{b['invalid']} invalid expressions {INVALID} (single- and multi-part, invalid part first or last) x base labellings "
                 f"rotating through {BASE_LABELS} x {b['cers']} content evaluation results. Oracle: no exception; every faulty segment-level / "
                 "free-text node is reported IS_OPTIONAL (with or without FILLED/EMPTY suffix, I4) with a non-empty reason as hint; a faulty "
                 "value-pool entry is offered; the result of every OTHER node is identical to the run on the AHB in which each invalid "
